@@ -15,6 +15,7 @@ import (
 	"errors"
 	"fmt"
 	"io"
+	"reflect"
 	"math"
 	"strings"
 	"sync"
@@ -125,7 +126,7 @@ func c05MW(log *vh.Log, side string, dur func(n int) time.Duration) mcp.Middlewa
 	return func(next mcp.MethodHandler) mcp.MethodHandler {
 		return func(ctx context.Context, method string, req mcp.Request) (mcp.Result, error) {
 			n := 0
-			if p := req.GetParams(); p != nil {
+			if p := req.GetParams(); p != nil && !reflect.ValueOf(p).IsNil() {
 				switch v := any(p).(type) {
 				case *mcp.CallToolParamsRaw:
 					var a struct{ Nonce int }
